@@ -180,8 +180,27 @@ def run_schedule(tid, nthreads, k, picker, rng, broken_lock=False, client_name="
     state = {}
     import pymodbus.transaction as TX
     from pymodbus.register_read_message import ReadHoldingRegistersRequest
-    saved = TX.RLock
-    TX.RLock = lambda: SLock(sched, broken=broken_lock)
+    # every way the library may name its lock class: `from threading import RLock / Lock` or `import threading` in the modules
+    # that could own the transaction lock.  Each name is replaced by a factory of scheduler-aware (re-entrant) locks for this run.
+    import pymodbus.client.sync as CSY
+    import threading as _thr
+    factory = lambda *a, **k: SLock(sched, broken=broken_lock)
+
+    class _ThreadingShim:
+        RLock = staticmethod(factory)
+        Lock = staticmethod(factory)
+
+        def __getattr__(self, name):
+            return getattr(_thr, name)
+    patched = []
+    for mod in (TX, CSY):
+        for name in ("RLock", "Lock"):
+            if hasattr(mod, name):
+                patched.append((mod, name, getattr(mod, name)))
+                setattr(mod, name, factory)
+        if getattr(mod, "threading", None) is _thr:
+            patched.append((mod, "threading", _thr))
+            setattr(mod, "threading", _ThreadingShim())
     try:
         with C.Patches(clock, line):
             kind, client, dec = C.make_client(client_name, {"retries": 1 if drop_first_of else 0, "roe": 1 if drop_first_of else 0, "roi": 0,
@@ -249,7 +268,8 @@ def run_schedule(tid, nthreads, k, picker, rng, broken_lock=False, client_name="
             for th in ths:
                 th.join(timeout=5)
     finally:
-        TX.RLock = saved
+        for mod, name, val in reversed(patched):
+            setattr(mod, name, val)
     return {"id": tid, "nthreads": nthreads, "k": k, "ev": sched.events, "calls": calls,
             "frames": [list(f) for f in frames], "connfail": 1 if connfail_first else 0,
             # executions the implementation-shaped model describes: the TCP client with a working connect and the real lock
